@@ -271,4 +271,25 @@ def preserveOne (t : FdTable) (s : SavedFd) : FdTable :=
 /-- `RedirGuard::preserve_redirs`: closes the saved copies only -/
 def preserveRedirs (t : FdTable) (saved : List SavedFd) : FdTable := saved.foldl preserveOne t
 
+/-! ### descriptors the shell opens for itself: `move_fd_internal` and the `.` built-in -/
+
+/-- `yash_env::io::move_fd_internal`: a descriptor already at or above `MIN_INTERNAL_FD` stays;
+    otherwise `dup(from, MIN_INTERNAL_FD, CLOEXEC)` and then `close(from)` **whether or not the dup
+    succeeded**; the result is the dup's (`none` = its errno) -/
+def moveFdInternal (o : Oracle W) (w : W) (t : FdTable) (src : Fd) : W × FdTable × Option Fd :=
+  if minInternalFd ≤ src then (w, t, some src) else
+  match t.dup src minInternalFd true (o.deny w).2 with
+  | .ok (n, t1) => ((o.deny w).1, t1.close src, some n)
+  | .error _ => ((o.deny w).1, t.close src, none)
+
+/-- `yash-builtin/src/source/semantics.rs` `open_file`: `open(path, ReadOnly, O_CLOEXEC)` on the
+    lowest free descriptor, then `move_fd_internal` -/
+def openScript (o : Oracle W) (w : W) (t : FdTable) (path : Nat) : W × FdTable × Option Fd :=
+  match o.resolve w { path := path, args := fileIn } with
+  | (w1, .error _) => (w1, t, none)
+  | (w1, .ok ofd) =>
+    match t.openFdGe 0 { ofd := ofd, cloexec := true } (o.deny w1).2 with
+    | none => ((o.deny w1).1, t, none)
+    | some (fd, t1) => moveFdInternal o (o.deny w1).1 t1 fd
+
 end YashModel.Redir
